@@ -18,7 +18,6 @@ import (
 	"sort"
 	"strings"
 	"testing"
-	"time"
 
 	"github.com/oklog/ulid/v2"
 	"github.com/prometheus/prometheus/model/labels"
@@ -145,8 +144,25 @@ func renderChunkSet(m map[chunkKey]int) string {
 // genC10Blocks draws the block specs. Stored names never collide with external names here (collisions are
 // C08's domain: there two stored series can be presented under the same label set).
 func genC10Blocks(rt *rapid.T, maxBlocks int) []blockSpec {
+	return genBlocks(rt, maxBlocks, false, 25)
+}
+
+// genBlocks: with collide the external label sets may use the stored names a, b and the series may carry
+// stored labels r, e (named like external / replica labels).
+func genBlocks(rt *rapid.T, maxBlocks int, collide bool, maxSeries int) []blockSpec {
 	hiCard := rapid.SampledFrom([]int{1, 3, 8, 20, 40}).Draw(rt, "hiCard")
-	lsets := genLabelSets(rt, 2, 25, map[string]bool{"e": true, "f": true, "r": true}, nil, hiCard)
+	forbid := map[string]bool{"e": true, "f": true, "r": true}
+	var extra []string
+	if collide {
+		forbid = nil
+		if rapid.Bool().Draw(rt, "storedR") {
+			extra = append(extra, "r")
+		}
+		if rapid.IntRange(0, 3).Draw(rt, "storedE") == 0 {
+			extra = append(extra, "e")
+		}
+	}
+	lsets := genLabelSets(rt, 2, maxSeries, forbid, extra, hiCard)
 	type ser struct {
 		lset labels.Labels
 		smp  []smpl
@@ -174,7 +190,7 @@ func genC10Blocks(rt *rapid.T, maxBlocks int) []blockSpec {
 	}
 	nb := rapid.IntRange(1, maxBlocks).Draw(rt, "nblocks")
 	sameExt := rapid.Bool().Draw(rt, "sameExt")
-	ext0 := genExt(rt, false, 1)
+	ext0 := genExt(rt, collide, 1)
 	partitioned := rapid.Bool().Draw(rt, "partitioned")
 	var cuts []int64
 	for i := 0; i < nb-1; i++ {
@@ -185,7 +201,7 @@ func genC10Blocks(rt *rapid.T, maxBlocks int) []blockSpec {
 	for bi := 0; bi < nb; bi++ {
 		sp := blockSpec{ext: ext0, chunkRange: rapid.SampledFrom([]int64{20, 50, 200, 1000, 1_000_000}).Draw(rt, "chunkRange")}
 		if !sameExt && bi > 0 {
-			sp.ext = genExt(rt, false, 1)
+			sp.ext = genExt(rt, collide, 1)
 		}
 		lo, hi := int64(-1), int64(1<<40)
 		if partitioned {
@@ -241,21 +257,26 @@ func renderSpecs(specs []blockSpec) string {
 
 func genKnobs(rt *rapid.T, label string, bs *blockSet) storeKnobs {
 	k := defaultKnobs()
-	k.indexCache = rapid.SampledFrom([]int{0, 600, 4000, 1 << 20}).Draw(rt, label+"cache")
-	k.lazy = rapid.Bool().Draw(rt, label+"lazy")
+	k.indexCache = rapid.SampledFrom([]int{0, 0, 600, 4000, 1 << 20}).Draw(rt, label+"cache")
+	k.lazy = rapid.IntRange(0, 4).Draw(rt, label+"lazy") > 1
 	switch rapid.IntRange(0, 3).Draw(rt, label+"estMode") {
-	case 0: // option not set
-	case 1:
+	case 0: // option not set: 64 KiB
+	case 1: // what `thanos store` computes from the index stats of the block meta
 		k.estFromStats = map[ulid.ULID]int64{}
 		for _, b := range bs.blocks {
 			k.estFromStats[b.id] = b.statsSeriesMax
 		}
 	case 2:
 		k.estSeriesSize = 65536
-	default:
+	default: // small fixed estimates (>= 16: series entries are 16-byte aligned, the stats never give less)
 		k.estSeriesSize = rapid.SampledFrom([]uint64{16, 32, 64, 128}).Draw(rt, label+"est")
 	}
-	k.matchRatio = rapid.SampledFrom([]float64{0.05, 0.5, 0.9, 1}).Draw(rt, label+"ratio")
+	k.matchRatio = rapid.SampledFrom([]float64{0.05, 0.5, 0.9, 1, 1}).Draw(rt, label+"ratio")
+	if k.lazy && rapid.Bool().Draw(rt, label+"force") {
+		// with ratio 1 every posting group after the first one is expanded lazily
+		k.matchRatio = 1
+	}
+	k.maxKeyRatio = rapid.SampledFrom([]float64{0, 0, 0.1, 1, 100}).Draw(rt, label+"keyRatio")
 	k.batchSize = rapid.SampledFrom([]int{1, 2, 3, 7, 64}).Draw(rt, label+"batch")
 	k.sampling = rapid.SampledFrom([]int{1, 2, 3, 8, 32, 64}).Draw(rt, label+"sampling")
 	k.gap = rapid.SampledFrom([]uint64{0, 1, 16, 512, 1 << 20}).Draw(rt, label+"gap")
@@ -269,23 +290,67 @@ func runSeries(st storepb.StoreServer, req *storepb.SeriesRequest) (*collectSrv,
 	return srv, err
 }
 
-var tBuild, tStore, tQuery, tClose, tRef time.Duration
+// c10RegressDupSet: one block {a="1"},{a="2"}; {a=~"1|1|2", a!="1"} must return only a="2".
+func c10RegressDupSet() string {
+	specs := []blockSpec{{ext: labels.FromStrings("e", "1"), chunkRange: 1_000_000, series: []blockSeries{
+		{lset: labels.FromStrings("a", "1"), samples: []smpl{{10, 1}}},
+		{lset: labels.FromStrings("a", "2"), samples: []smpl{{10, 2}}},
+	}}}
+	bs, err := buildBlockSet(specs)
+	if err != nil {
+		return "harness: " + err.Error()
+	}
+	defer bs.close()
+	ls, err := newBucketStore(bs.bkt, defaultKnobs())
+	if err != nil {
+		return "harness: " + err.Error()
+	}
+	defer ls.close()
+	q := c10Query{ms: []*labels.Matcher{labels.MustNewMatcher(labels.MatchRegexp, "a", "1|1|2"), labels.MustNewMatcher(labels.MatchNotEqual, "a", "1")}, mint: 0, maxt: 100}
+	ref, err := refRead(bs, q)
+	if err != nil {
+		return "harness: " + err.Error()
+	}
+	ms, _ := storepb.PromMatchersToMatchers(q.ms...)
+	srv, err := runSeries(ls.st, &storepb.SeriesRequest{MinTime: q.mint, MaxTime: q.maxt, Matchers: ms})
+	if err != nil {
+		return "Series failed: " + err.Error()
+	}
+	if d := diffAnswers(groupFrames(srv.frames), ref); d != "" {
+		return fmt.Sprintf("block {a=\"1\"},{a=\"2\"}, query %s: %s", q, d)
+	}
+	return ""
+}
 
 func TestVerifC10(t *testing.T) {
 	rec := kit.For(t, "C10")
-	defer func() { fmt.Printf("TIMING build=%v store=%v query=%v close=%v ref=%v\n", tBuild, tStore, tQuery, tClose, tRef) }()
 	maxQ := kit.Scale("c10queries", 30, 40)
+	known := kit.KnownFindings("C10")
+	// regression input of finding C10/dup-set-matcher-minus-empty-matcher
+	if msg := c10RegressDupSet(); msg != "" {
+		if strings.HasPrefix(msg, "harness:") {
+			t.Fatalf("%s", msg)
+		}
+		if known[sigC10DupSet] {
+			rec.Known(sigC10DupSet, msg)
+		} else {
+			rec.Violation(t, "regression dup-set: %s", msg)
+		}
+	}
 	rec.Check(t, func(rt *rapid.T) {
 		specs := genC10Blocks(rt, 4)
-		t0 := time.Now()
 		bs, err := buildBlockSet(specs)
 		if err != nil {
 			rt.Fatalf("harness: %v (%s)", err, renderSpecs(specs))
 		}
 		defer bs.close()
 		dmin, dmax, marks := bs.dataRange()
-		tBuild += time.Since(t0)
 
+		var exts []labels.Labels
+		for _, sp := range specs {
+			exts = append(exts, sp.ext)
+		}
+		mg := matcherGen{nonExt: []string{"a", "__name__", "h", "b", "c", "d", "q"}, extVals: extValsOf(exts, "e", "f", "r"), stored: storedValsOf(specLsets(specs)), hiCard: 40, maxN: 3}
 		// history
 		nq := rapid.IntRange(10, maxQ).Draw(rt, "nq")
 		var hist []c10Query
@@ -300,13 +365,16 @@ func TestVerifC10(t *testing.T) {
 				hist = append(hist, q)
 			default:
 				var q c10Query
-				q.ms = genMatchers(rt, []string{"a", "b", "c", "d", "__name__", "h", "q"}, []string{"e", "f", "r"}, 40, 3)
+				q.ms = mg.draw(rt)
+				if known[sigC10DupSet] && dupSetTrigger(q.ms) {
+					rec.Excluded(sigC10DupSet)
+					q.ms = dedupSets(q.ms)
+				}
 				q.mint, q.maxt = genRange(rt, dmin, dmax, marks)
 				hist = append(hist, q)
 			}
 		}
 		// reference answers (computed once per distinct query)
-		t4 := time.Now()
 		refs := make([]map[string]map[chunkKey]int, len(hist))
 		for i, q := range hist {
 			r, err := refRead(bs, q)
@@ -316,7 +384,6 @@ func TestVerifC10(t *testing.T) {
 			refs[i] = r
 		}
 
-		tRef += time.Since(t4)
 		nstores := rapid.IntRange(2, 3).Draw(rt, "nstores")
 		nontrivial := false
 		classes := map[string]bool{}
@@ -324,13 +391,10 @@ func TestVerifC10(t *testing.T) {
 		for si := 0; si < nstores; si++ {
 			k := genKnobs(rt, fmt.Sprintf("k%d_", si), bs)
 			knobsTxt = append(knobsTxt, k.String())
-			t1 := time.Now()
 			ls, err := newBucketStore(bs.bkt, k)
 			if err != nil {
 				rt.Fatalf("harness: bucket store: %v", err)
 			}
-			tStore += time.Since(t1)
-			t2 := time.Now()
 			seen := map[string]bool{}
 			for qi, q := range hist {
 				var hits0 int64
@@ -385,10 +449,7 @@ func TestVerifC10(t *testing.T) {
 				}
 				seen[q.String()] = true
 			}
-			tQuery += time.Since(t2)
-			t3 := time.Now()
 			ls.close()
-			tClose += time.Since(t3)
 		}
 		if len(specs) > 1 {
 			classes["multi-block"] = true
